@@ -141,7 +141,17 @@ func runHist(ch *simrt.Chooser, opt Options) RunResult {
 	case simrt.OutPanic:
 		// a panic that escaped an operation: the harness wraps every library call, so this is a harness problem or
 		// a panic inside a worker goroutine of an async call
-		res.Failures = append(res.Failures, Failure{Oracle: "goroutine-panic", Sig: "C15/goroutine-panic/hist", Props: []string{"C15"},
+		own := []string{"C15"}
+		sig := "C15/goroutine-panic/hist"
+		if out.PanicG == 0 || panicRaisedInLibrary(out.PanicStack) {
+			// the history's own client panicked inside a library call the harness did not expect to panic (a constructor, an
+			// observer used by the comparison): the operation in progress is outside its documented behaviour
+			if len(h.curOwner) > 0 && panicRaisedInLibrary(out.PanicStack) {
+				own = append(append([]string(nil), h.curOwner...), "C15")
+				sig = h.curOwner[0] + "/escaped-panic/" + h.curOp
+			}
+		}
+		res.Failures = append(res.Failures, Failure{Oracle: "goroutine-panic", Sig: sig, Props: own,
 			Msg: fmt.Sprintf("goroutine g%d panicked during %s: %s", out.PanicG, h.curOp, out.PanicMsg), Detail: out.PanicStack})
 	case simrt.OutDeadlock:
 		// the single client of a history can only block for ever on the library's own synchronisation (e.g. a lock left held
@@ -158,6 +168,24 @@ func runHist(ch *simrt.Chooser, opt Options) RunResult {
 			Msg: fmt.Sprintf("inconclusive: history exceeded the step bound during %s: %s", h.curOp, strings.Join(out.Blocked, " "))})
 	}
 	return res
+}
+
+// panicRaisedInLibrary: the innermost frame below the runtime's panic machinery belongs to the library under test.
+func panicRaisedInLibrary(stack string) bool {
+	lines := strings.Split(stack, "\n")
+	seenPanic := false
+	for _, l := range lines {
+		l = strings.TrimSpace(l)
+		if strings.HasPrefix(l, "panic(") || strings.HasPrefix(l, "runtime.gopanic") || strings.HasPrefix(l, "runtime.panic") || strings.HasPrefix(l, "runtime.goPanic") {
+			seenPanic = true
+			continue
+		}
+		if !seenPanic || strings.HasPrefix(l, "/") || strings.HasPrefix(l, "runtime.") || l == "" {
+			continue
+		}
+		return strings.HasPrefix(l, "github.com/DanielSvub/anytype.")
+	}
+	return false
 }
 
 func (h *Hist) snapshotSafe(ok bool) uint64 {
